@@ -285,6 +285,71 @@ Example C20_override_nonvacuous :
   schema_fuel (digest_tab EP) (mkcfg false "#") 2 (TClass "Bare") [] = SErr.
 Proof. split; [reflexivity|]. split; [eexists _, _; split; [vm_compute; reflexivity|vm_compute; reflexivity]|reflexivity]. Qed.
 
+(* ---- overridden serialization as the implementation runs it: a chain of replacements per position (SchemaChain) ----
+   get_schema is entered again with the replacement type, which is looked up in the tables of the class again (a field-level
+   option only once: /repo 42523b8).  rchain is that loop with the Python stack as fuel. *)
+From Verif Require Import SchemaChain.
+
+(* more fuel never changes a result *)
+Theorem C20_chain_mono : forall dial conf (n m: nat) t u, (n <= m)%nat -> rchain dial conf n t = Some u -> rchain dial conf m t = Some u.
+Proof. exact rchain_mono_le. Qed.
+Print Assumptions C20_chain_mono.
+
+(* totality of the rewriting.  Full statement: forall dial conf t, exists n u, rchain dial conf n t = Some u.  It holds under the
+   computable predicate chain_ok (every registered replacement type resolves within N steps) ... *)
+Theorem C20_chain_total_partial : forall dial conf N, chain_ok dial conf N = true ->
+  forall t, exists n u, rchain dial conf n t = Some u.
+Proof. exact rchain_total. Qed.
+Print Assumptions C20_chain_total_partial.
+
+(* ... and is false without it: a table whose replacement type leads back to the overridden key never stops
+   (known finding C20/schema-table-override-recursion: RecursionError) *)
+Theorem C20_chain_total_refuted : ~ (forall dial conf t, exists n u, rchain dial conf n t = Some u).
+Proof. exact rchain_total_refuted. Qed.
+Print Assumptions C20_chain_total_refuted.
+
+Theorem C20_chain_cycle_diverges : forall n,
+  rchain [] [("int", ORet (Some (TList TInt)))] n TInt = None /\
+  rchain [] [("int", ORet (Some TStr)); ("str", ORet (Some TInt))] n TInt = None.
+Proof. intros n. split; [exact (proj1 (cyc1_diverges n))|exact (proj1 (cyc2_diverges n))]. Qed.
+Print Assumptions C20_chain_cycle_diverges.
+
+(* on the one-step fragment (tabs_flat: no registered replacement type mentions an overridden key) the chain IS the rewriting
+   resolve_ty of the C20_override_* theorems, for every sufficient fuel ... *)
+From Verif Require Import SchemaChainAgree.
+Theorem C20_chain_agrees_flat : forall dial conf, tabs_flat dial conf = true ->
+  forall t, exists n, forall m, (n <= m)%nat -> rchain dial conf m t = Some (resolve_ty dial conf t).
+Proof. exact rchain_agrees_flat. Qed.
+Print Assumptions C20_chain_agrees_flat.
+
+(* ... hence covered third-party classes are eliminated by the chain as well *)
+Theorem C20_chain_covered : forall dial conf t, tabs_flat dial conf = true -> covered dial conf t = true ->
+  exists n u, rchain dial conf n t = Some u /\ ty_ok u = true.
+Proof.
+  intros dial conf t Hf Hc. destruct (rchain_agrees_flat dial conf Hf t) as [n Hn].
+  exists n, (resolve_ty dial conf t). split; [apply Hn; apply le_n|apply covered_ok; exact Hc].
+Qed.
+Print Assumptions C20_chain_covered.
+
+Example C20_chain_flat_nonvacuous :
+  tabs_flat [("list", ORet (Some TStr)); ("Pt", ORet (Some (TList TBool)))] [("int", ORet (Some TFloat)); ("Pt", OPass)] = false /\
+  tabs_flat [("dict", ORet (Some TStr)); ("Pt", ORet (Some (TSet TBool)))] [("int", ORet (Some TFloat)); ("Pt", OPass)] = true /\
+  tabs_flat [("Pt", ORet (Some TInt)); ("int", ODeser)] [("int", ORet (Some TStr)); ("Pt", OPass)] = false /\
+  tabs_flat [] [("int", ORet (Some (TList TInt)))] = false /\
+  covered [("dict", ORet (Some TStr)); ("Pt", ORet (Some (TSet TBool)))] [("int", ORet (Some TFloat)); ("Pt", OPass)] (TList (TUnion [TOpaque "Pt"; TNone])) = true /\
+  rchain [("dict", ORet (Some TStr)); ("Pt", ORet (Some (TSet TBool)))] [("int", ORet (Some TFloat)); ("Pt", OPass)] 6%nat (TList (TUnion [TOpaque "Pt"; TNone]))
+    = Some (TList (TUnion [TSet TBool; TNone])).
+Proof. repeat split; vm_compute; reflexivity. Qed.
+
+(* non-vacuity: Pt -> int -> List[str] -> bool over three table entries, a field-level replacement resolved by the tables below it,
+   float -> float stays; EP above (Pt -> int by the dialect, int -> str by Config) is outside the one-step fragment: the chain gives str *)
+Example C20_chain_nonvacuous :
+  (match digest_tab_chain 8%nat EC with Some [(_, fs)] => map f_ty fs | _ => [] end) = [TBool; TDict TBool; TTuple [TBool; TStr]; TFloat; TAny] /\
+  (match digest_tab_chain 8%nat EP with Some ((_, fs) :: _) => map f_ty fs | _ => [] end) = [TStr; TList (TUnion [TStr; TNone]); TDict TStr; TAny; TInt] /\
+  tab_flat EP = false /\ tab_flat EC = false /\ tab_flat ER = true /\
+  (exists E, digest_tab_chain 8%nat ER = Some E /\ map (fun c => map f_ty (snd c)) E = map (fun c => map f_ty (snd c)) (digest_tab ER)).
+Proof. repeat split; try (vm_compute; reflexivity). eexists; split; vm_compute; reflexivity. Qed.
+
 (* ---- the default VALUE of a property: the reference serialization (TyModel.ref_enc, the lead's model of to_dict)
         of the value under the field's type, through the embedding sty_of of this grammar; None is always null ---- *)
 From Verif Require Core TyModel.
